@@ -339,6 +339,12 @@ impl Spy {
         Box::new(self.clone())
     }
 
+    /// The same terminal behind a `TermLike` that leaves `height()` to the trait's default (20 rows)
+    #[allow(dead_code)]
+    pub fn boxed_default_height(&self) -> Box<dyn TermLike> {
+        Box::new(DefaultHeight(self.clone()))
+    }
+
     pub fn doc(&self) -> Vec<String> {
         self.st().model.doc()
     }
@@ -520,4 +526,38 @@ pub fn wrap_rows(text: &str, w: usize) -> Vec<String> {
         v.push(String::new());
     }
     v
+}
+
+/// A `TermLike` that does not say how high it is.
+#[derive(Debug)]
+pub struct DefaultHeight(pub Spy);
+
+impl TermLike for DefaultHeight {
+    fn width(&self) -> u16 {
+        self.0.width()
+    }
+    fn move_cursor_up(&self, n: usize) -> io::Result<()> {
+        self.0.move_cursor_up(n)
+    }
+    fn move_cursor_down(&self, n: usize) -> io::Result<()> {
+        self.0.move_cursor_down(n)
+    }
+    fn move_cursor_right(&self, n: usize) -> io::Result<()> {
+        self.0.move_cursor_right(n)
+    }
+    fn move_cursor_left(&self, n: usize) -> io::Result<()> {
+        self.0.move_cursor_left(n)
+    }
+    fn write_line(&self, s: &str) -> io::Result<()> {
+        self.0.write_line(s)
+    }
+    fn write_str(&self, s: &str) -> io::Result<()> {
+        self.0.write_str(s)
+    }
+    fn clear_line(&self) -> io::Result<()> {
+        self.0.clear_line()
+    }
+    fn flush(&self) -> io::Result<()> {
+        self.0.flush()
+    }
 }
